@@ -334,7 +334,29 @@ theorem zip_map_self {α γ} (l : List α) (g : α → γ) : l.zip (l.map g) = l
   | nil => rfl
   | cons x xs ih => simp [ih]
 
-/-- When no run fails every frame carries the id of its own neuron. -/
+theorem survivors_zip {ν γ} (f : ν → Res γ) (nl : List ν) :
+    (survivors nl (failedFlags (nl.map f))).zip ((nl.map f).filterMap id) =
+      nl.filterMap fun x => (f x).map fun v => (x, v) := by
+  unfold survivors failedFlags
+  induction nl with
+  | nil => rfl
+  | cons x xs ih =>
+    cases hfx : f x with
+    | none => simpa [hfx] using ih
+    | some v => simpa [hfx] using ih
+
+theorem filterMap_id_map {ν γ} (f : ν → Res γ) (nl : List ν) : (nl.map f).filterMap id = nl.filterMap f := by
+  rw [List.filterMap_map]; rfl
+
+/-- `map_neuronlist_df` with `omit_failures=True`, every failure pattern. -/
+theorem mapDfW_omit {ν γ} (f : ν → Res γ) (nl : List ν) :
+    mapDfW f nl true =
+      if (nl.filterMap f).isEmpty then none else some (nl.filterMap fun x => (f x).map fun v => (x, v)) := by
+  unfold mapDfW collect
+  simp only [if_true, Option.bind_some]
+  rw [survivors_zip, filterMap_id_map]
+
+/-- When no run fails every frame carries the id of its own neuron (with or without `omit_failures`). -/
 theorem mapDfW_no_failure {ν γ} (g : ν → γ) (nl : List ν) (hne : nl ≠ []) (omitF : Bool) :
     mapDfW (fun x => some (g x)) nl omitF = some (nl.map fun x => (x, g x)) := by
   unfold mapDfW collect
@@ -344,10 +366,25 @@ theorem mapDfW_no_failure {ν γ} (g : ν → γ) (nl : List ν) (hne : nl ≠ [
     cases nl with
     | nil => exact absurd rfl hne
     | cons x xs => rfl
+  have hz := survivors_zip (fun x => some (g x)) nl
   cases omitF
   · simp only [Bool.false_eq_true, if_false, hall, if_true, Option.bind_some]
-    rw [filterMap_id_map_some, hemp, zip_map_self]; rfl
+    rw [hz, filterMap_id_map_some, hemp]
+    simp
   · simp only [if_true, Option.bind_some]
-    rw [filterMap_id_map_some, hemp, zip_map_self]; rfl
+    rw [hz, filterMap_id_map_some, hemp]
+    simp
+
+/-- Without `omit_failures` a single failing run makes the call raise. -/
+theorem mapDfW_strict_failure {ν γ} (f : ν → Res γ) (nl : List ν) (h : ∃ x ∈ nl, f x = none) :
+    mapDfW f nl false = none := by
+  unfold mapDfW collect
+  have : (nl.map f).all Option.isSome = false := by
+    rw [Bool.eq_false_iff]; intro hall
+    rw [List.all_eq_true] at hall
+    obtain ⟨x, hx, hfx⟩ := h
+    have := hall (f x) (List.mem_map.mpr ⟨x, hx, rfl⟩)
+    rw [hfx] at this; simp at this
+  simp [this]
 
 end Navis.Zip
